@@ -6,7 +6,7 @@
    the shared reference parser; objects with duplicate keys are outside the domain in which the
    model is tied to the code (see props/C02.json). *)
 From Verif Require Import Lib.Bytes Json.Ast Json.Parse Json.Print Json.Render Json.CanonFacts
-     Json.ParseSound Sign.Base64 Sign.Base64Facts Sign.Model Sign.Proofs Sign.Normal Sign.Instance Sign.IdealInstance.
+     Json.ParseSound Fed.Utf8C13 Sign.Base64 Sign.Base64Facts Sign.Model Sign.Proofs Sign.Normal Sign.Instance Sign.IdealInstance.
 Open Scope N_scope.
 
 Section C02.
@@ -17,10 +17,17 @@ Section C02.
   Notation verify_value := (verify_value verify sig_size_ok pk_size_ok).
   Notation sign_all := (sign_all sign).
 
-  (* every object that SignJSON signs verifies under the signer's name, key ID and public key *)
+  (* every object that SignJSON signs verifies under the signer's name, key ID and public key -
+     provided no member name other than signatures / unsigned occurs twice in it (no_repeats m;
+     implied by distinct member names, nodup_no_repeats).  Without the proviso the statement is
+     false of the code and of the model: finding F69, sign_then_verify_refuted_for_repeated_member. *)
   Theorem sign_then_verify : forall name kid k m o,
+    no_repeats m ->
     sign_value name kid k (JObj m) = Some o -> verify_value name kid (pub k) o = true.
   Proof. intros. eapply sign_then_verify_value; eauto. Qed.
+
+  Theorem distinct_names_have_no_repeats : forall m, NoDup (map fst m) -> no_repeats m.
+  Proof. intros. apply nodup_no_repeats. assumption. Qed.
 
   (* ... however the signed object is re-serialised: any text t' whose value is equivalent to
      the signed object (same members in any order, integers spelled differently; white space and
@@ -29,27 +36,32 @@ Section C02.
      used about the canonical printer is C01's theorem CanonFacts.canon_print_normalise:
      canon_print (normalise v) = canon_print v.  No premise is left. *)
   Theorem verdict_invariant_under_reserialisation : forall name kid p o t' v',
+    top_no_repeats o -> top_no_repeats v' ->
     parse_json t' = Some v' -> jequiv v' o ->
     verify_json verify sig_size_ok pk_size_ok name kid p t' = verify_value name kid p o.
   Proof.
-    intros name kid p o t' v' P E. unfold verify_json. rewrite P.
-    apply verify_respects_jequiv. exact E.
+    intros name kid p o t' v' N N' P E. unfold verify_json. rewrite P.
+    apply verify_respects_jequiv; assumption.
   Qed.
 
   Theorem sign_then_verify_reserialised : forall name kid k m o t' v',
+    no_repeats m -> top_no_repeats v' ->
     sign_value name kid k (JObj m) = Some o ->
     parse_json t' = Some v' -> jequiv v' o ->
     verify_json verify sig_size_ok pk_size_ok name kid (pub k) t' = true.
   Proof.
-    intros name kid k m o t' v' S P E.
-    rewrite (verdict_invariant_under_reserialisation name kid (pub k) o t' v' P E).
-    eapply sign_then_verify_value; eauto.
+    intros name kid k m o t' v' N N' S P E.
+    rewrite (verdict_invariant_under_reserialisation name kid (pub k) o t' v'); try assumption.
+    - eapply sign_then_verify_value; eauto.
+    - eapply signed_top_no_repeats; eauto.
   Qed.
 
-  (* the text-level functions: SignJSON parses, signs the value and prints canonically, so that
-     with the two theorems above every text equivalent to the value of its output verifies *)
+  (* the text-level functions: SignJSON refuses a text that is not UTF-8 (repair F70), else
+     parses, signs the value and prints canonically, so that with the two theorems above every
+     text equivalent to the value of its output verifies *)
   Theorem sign_json_text : forall name kid k t st,
     sign_json key sign name kid k t = Some st <->
+    utf8_valid t = true /\
     exists v o, parse_json t = Some v /\ sign_value name kid k v = Some o /\ st = canon_print o.
   Proof. intros. apply sign_json_unfold. Qed.
 
@@ -61,6 +73,7 @@ Section C02.
   (* ... still after any list of further signers with other (name, key ID) pairs has signed,
      each of which succeeds *)
   Theorem sign_then_verify_after_more_signers : forall name kid k m o more,
+    no_repeats m ->
     sign_value name kid k (JObj m) = Some o ->
     Forall (fun s : signer => (fst (fst s), snd (fst s)) <> (name, kid)) more ->
     exists o', sign_all more o = Some o' /\ verify_value name kid (pub k) o' = true.
@@ -69,6 +82,7 @@ Section C02.
   (* ... and after unsigned is set to anything, or removed; more generally whenever the
      signatures member and the members other than signatures / unsigned are what they were *)
   Theorem sign_then_verify_after_unsigned_change : forall name kid k m m1,
+    no_repeats m ->
     sign_value name kid k (JObj m) = Some (JObj m1) ->
     (forall u, verify_value name kid (pub k) (jset k_unsigned u (JObj m1)) = true) /\
     verify_value name kid (pub k) (jdel k_unsigned (JObj m1)) = true /\
@@ -104,10 +118,11 @@ Section C02.
 
   (* soundness, in general: whatever VerifyJSON accepts carries, under that name and key ID, a
      signature made with the secret key of the presented public key over the canonical form of
-     exactly the members other than signatures and unsigned *)
+     the members other than signatures and unsigned - of the LAST member of each name
+     (verified_part): VerifyJSON reads the text into a Go map, finding F69 *)
   Theorem verify_accepts_only_genuine_signatures : forall name kid p v,
     verify_value name kid p v = true ->
-    exists k s, sig_at name kid v = Some s /\ p = pub k /\ s = sign k (canon_print (strip v)).
+    exists k s, sig_at name kid v = Some s /\ p = pub k /\ s = sign k (canon_print (verified_part v)).
   Proof. intros. eapply verify_accepts_only_genuine; eauto. Qed.
 
   (* soundness, tampering: the signature SignJSON made for one object is refused on every value
@@ -115,53 +130,56 @@ Section C02.
   Theorem verify_sound_tamper_canonical : forall name kid k m o v' p,
     sign_value name kid k (JObj m) = Some o ->
     sig_at name kid v' = sig_at name kid o ->
-    canon_print (strip v') <> canon_print (strip (JObj m)) ->
+    canon_print (verified_part v') <> canon_print (strip (JObj m)) ->
     verify_value name kid p v' = false.
   Proof. intros. eapply tamper_canonical; eauto. Qed.
 
-  (* ... hence on every value that differs from the signed object in any member other than
-     signatures and unsigned (value change, insertion, deletion, nested edit: the stripped values
+  (* ... hence on every value without a repeated member name that differs from the signed
+     object in any member other than signatures and unsigned (value change, insertion, deletion, nested edit: the stripped values
      are not equivalent).  Equivalence of JSON values (jequiv), well-formedness (json_wf: every
      number literal is grammatical - true of every parsed value, ParseSound.parse_wf) and the
      injectivity of the canonical printer up to equivalence are C01's
      (CanonFacts.canon_print_injective); no premise is left. *)
   Theorem verify_sound_tamper : forall name kid k m o v' p,
+    top_no_repeats v' ->
     sign_value name kid k (JObj m) = Some o ->
     sig_at name kid v' = sig_at name kid o ->
     json_wf (strip v') -> json_wf (strip (JObj m)) ->
     ~ jequiv (strip v') (strip (JObj m)) ->
     verify_value name kid p v' = false.
   Proof.
-    intros name kid k m o v' p S A W W' N.
-    eapply verify_sound_tamper_canonical; eauto using canon_print_injective.
+    intros name kid k m o v' p NR S A W W' N.
+    eapply verify_sound_tamper_canonical; eauto.
+    rewrite (verified_part_no_repeats v' NR). eauto using canon_print_injective.
   Qed.
 
   (* ... spelled out for single members: if some member other than signatures / unsigned is
      bound to an inequivalent value (value change, nested edit), or is present on one side only
      (insertion, deletion), the old signature is refused *)
   Theorem verify_sound_member_change : forall name kid k m o m' p mkey,
+    no_repeats m' ->
     sign_value name kid k (JObj m) = Some o ->
     sig_at name kid (JObj m') = sig_at name kid o ->
     json_wf (strip (JObj m')) -> json_wf (strip (JObj m)) ->
     is_meta mkey = false -> member_differs mkey m' m ->
     verify_value name kid p (JObj m') = false.
   Proof.
-    intros name kid k m o m' p mkey S A W W' M D.
-    apply (verify_sound_tamper name kid k m o (JObj m') p S A W W').
+    intros name kid k m o m' p mkey NR S A W W' M D.
+    apply (verify_sound_tamper name kid k m o (JObj m') p NR S A W W').
     apply (member_differs_not_jequiv mkey); assumption.
   Qed.
 
   (* ... and on texts: the well-formedness side conditions hold of everything the parser
      returns, so for parsed objects they disappear *)
   Theorem verify_sound_member_change_parsed : forall name kid k t t' m o m' p mkey,
-    parse_json t = Some (JObj m) -> parse_json t' = Some (JObj m') ->
+    parse_json t = Some (JObj m) -> parse_json t' = Some (JObj m') -> no_repeats m' ->
     sign_value name kid k (JObj m) = Some o ->
     sig_at name kid (JObj m') = sig_at name kid o ->
     is_meta mkey = false -> member_differs mkey m' m ->
     verify_json verify sig_size_ok pk_size_ok name kid p t' = false.
   Proof.
-    intros name kid k t t' m o m' p mkey P P' S A M D. unfold verify_json. rewrite P'.
-    apply (verify_sound_member_change name kid k m o m' p mkey S A); try assumption.
+    intros name kid k t t' m o m' p mkey P P' NR S A M D. unfold verify_json. rewrite P'.
+    apply (verify_sound_member_change name kid k m o m' p mkey NR S A); try assumption.
     - apply strip_wf. exact (parse_wf _ _ P').
     - apply strip_wf. exact (parse_wf _ _ P).
   Qed.
@@ -232,6 +250,42 @@ Example concrete_reserialised_and_tampered :
   end.
 Proof. vm_compute. repeat split; reflexivity. Qed.
 
+(* F69, both directions, on the model (which follows the code): a member inserted IN FRONT of a
+   signed member of the same name is not noticed, and an object with a repeated member name is
+   signed by SignJSON but refused by VerifyJSON.  Hence the no_repeats provisos above. *)
+Example verify_sound_tamper_refuted_for_repeated_member :
+  match s_sign_json (bs "example.org") (bs "ed25519:1") ex_key
+          (bs "{""content"":{""body"":""pay 100""},""sender"":""@alice:example.org""}") with
+  | Some st =>
+      match parse_json st with
+      | Some (JObj m) =>
+          match assoc_last k_signatures m with
+          | Some sg =>
+              let t' := bs "{""content"":{""body"":""pay 999""},""content"":{""body"":""pay 100""},"
+                        ++ bs """sender"":""@alice:example.org"",""signatures"":" ++ canon_print sg ++ bs "}" in
+              match parse_json t' with
+              | Some v' =>
+                  sig_at (bs "example.org") (bs "ed25519:1") v' = sig_at (bs "example.org") (bs "ed25519:1") (JObj m) /\
+                  canon_print (strip v') <> canon_print (strip (JObj m)) /\
+                  s_verify_json (bs "example.org") (bs "ed25519:1") ex_key t' = true
+              | None => False
+              end
+          | None => False
+          end
+      | _ => False
+      end
+  | None => False
+  end.
+Proof. vm_compute. repeat split; try reflexivity. discriminate. Qed.
+
+Example sign_then_verify_refuted_for_repeated_member :
+  exists t,
+    match s_sign_json (bs "example.org") (bs "ed25519:1") ex_key t with
+    | Some st => s_verify_json (bs "example.org") (bs "ed25519:1") ex_key st = false
+    | None => False
+    end.
+Proof. exists (bs "{""a"":1,""a"":2}"). vm_compute. reflexivity. Qed.
+
 (* equivalence is not trivial: member order and integer spelling are ignored, values are not *)
 Example jequiv_concrete :
   match parse_json (bs "{""a"":1,""b"":[-0,{""y"":2,""x"":3}]}"),
@@ -243,6 +297,7 @@ Example jequiv_concrete :
 Proof. vm_compute. split; [reflexivity|discriminate]. Qed.
 
 Print Assumptions sign_then_verify.
+Print Assumptions distinct_names_have_no_repeats.
 Print Assumptions verdict_invariant_under_reserialisation.
 Print Assumptions sign_then_verify_reserialised.
 Print Assumptions sign_json_text.
